@@ -103,20 +103,104 @@ pub fn run_case(workdir: &str, seed: u64, rep: &mut Report, case: &Case, tag: &s
     let _ = std::fs::remove_dir_all(&dir);
 }
 
+/// Trace-validated builds of one case, strictly sequential (the event log and the yield function
+/// are process-global, so nothing else may drive a pipeline meanwhile): a plain reference build,
+/// then `builds` logged builds with other thread counts / capacities / perturbed schedules; each
+/// log goes through `c05::validate_trace` (producer program = model program, trace inclusion, batch
+/// composition = partition of the pushes at the token rounds) and each archive must have the
+/// reference sha256. Returns false when a run hung (stop: the global state is polluted).
+pub fn traced_builds(ctx: &mut Ctx, rep: &mut Report, case: &Case, tag: &str, builds: usize) -> bool {
+    use crate::props::c05::{self, Perturb};
+    let dir = PathBuf::from(&ctx.workdir).join(format!("c04t_{tag}"));
+    let _ = std::fs::remove_dir_all(&dir);
+    let mut prng = Rng::new(ctx.seed, 104, 0);
+    let inputs = c01::write_inputs(&dir, case, &mut prng, &Presentation::plain());
+    let sizes: Vec<Vec<usize>> =
+        case.set.samples.iter().map(|s| s.contigs.iter().map(|c| genomes::normalise_letters(&c.1).len()).collect()).collect();
+    let maxlen = sizes.iter().flatten().cloned().max().unwrap_or(1).max(1);
+    let idx = case.desc["index"].as_u64().unwrap_or(0);
+    let mut rng = Rng::new(ctx.seed, 304, idx);
+    let ref_out = dir.join("ref.agc");
+    let reference = match guarded(|| archive::create_archive(&inputs, &ref_out, &case.params)) {
+        Ok(Ok(())) => sha(&ref_out),
+        other => {
+            rep.oracle_fail("create-error", &format!("reference build failed: {:?}", other), case.desc.clone());
+            let _ = std::fs::remove_dir_all(&dir);
+            return true;
+        }
+    };
+    let mut ok = true;
+    for b in 0..builds {
+        let mut p = case.params.clone();
+        p.threads = *rng.pick(&[2usize, 3, 4, 8, 16]);
+        p.queue_capacity = if b % 2 == 0 { maxlen + rng.below(maxlen as u64 + 1) as usize } else { 2 << 30 };
+        let pt = Perturb { mode: 1 + (b as u32 + idx as u32) % 4, per_mille: 500, seed: rng.next() };
+        let out = dir.join(format!("t{b}.agc"));
+        let run = c05::run_logged(&inputs, &out, &p, &[], &pt, std::time::Duration::from_secs(180));
+        rep.count("traced_builds");
+        let info = json!({"threads": p.threads, "queue_capacity": p.queue_capacity, "perturb": pt.to_json()});
+        if !run.finished {
+            rep.oracle_fail("pipeline-hang", &format!("traced build {info} did not return within 60 s; last events: {}", c05::tail(&run.events, 30)), case.desc.clone());
+            ok = false;
+            break;
+        }
+        if let Some(Err(e)) = &run.create_result {
+            rep.oracle_fail("create-error", &format!("traced build {info} failed: {e}"), case.desc.clone());
+            ok = !e.starts_with("panic: ");
+            break;
+        }
+        let s = c05::validate_trace(&mut ctx.model, rep, &run, case.single_file, &sizes, &p, &[], 0, &case.desc);
+        if s.clean {
+            rep.count("trace_validated_runs");
+        }
+        rep.count(&format!("traced_rounds_{}", s.rounds));
+        if s.push_waits > 0 {
+            rep.count("traced_branch_push_waited");
+        }
+        if s.pull_waits > 0 {
+            rep.count("traced_branch_pull_waited");
+        }
+        let h = sha(&out);
+        if h != reference {
+            let sig = if case.single_file { "bytes-differ-single-file" } else { "bytes-differ-multi-file" };
+            rep.oracle_fail(sig, &format!("traced build {info} gave sha256 {}.. but the 1-thread reference build gave {}..", &h[..8], &reference[..8]), case.desc.clone());
+        } else {
+            rep.count("traced_builds_byte_identical");
+        }
+        let _ = std::fs::remove_file(&out);
+    }
+    let _ = std::fs::remove_dir_all(&dir);
+    ok
+}
+
 pub fn run(ctx: &mut Ctx) -> Report {
     let mut rep = Report::new(
         "C04",
         "each case (multi-file / single-file with >= pack-cardinality contigs) is built several times with thread counts \
-         1..16 and queue capacities from just above one contig to unbounded; non-trivial when >= 2 contigs; distinct by generator description",
+         1..16 and queue capacities from just above one contig to unbounded; the first few cases are additionally built with the event \
+         log on under perturbed schedules, validated against the pipeline model (c05::validate_trace) and compared byte for byte with a \
+         1-thread reference; non-trivial when >= 2 contigs; distinct by generator description",
     );
     if let Some(r) = ctx.replay.clone() {
         let c = &r["case"];
         let case = gen_case(c["seed"].as_u64().unwrap_or(1), c["index"].as_u64().unwrap_or(0));
-        run_case(&ctx.workdir, ctx.seed, &mut rep, &case, "replay", 8);
+        if traced_builds(ctx, &mut rep, &case, "replay", 4) {
+            run_case(&ctx.workdir, ctx.seed, &mut rep, &case, "replay", 8);
+        }
         return rep;
     }
     let n = ctx.t(10, 120);
     let builds = ctx.t(4, 10);
+    // first, sequentially: logged + trace-validated builds of the first few cases
+    let traced_cases = ctx.t(6, 30).min(n);
+    let traced = ctx.t(2, 3);
+    for i in 0..traced_cases {
+        let case = gen_case(ctx.seed, i);
+        if !traced_builds(ctx, &mut rep, &case, &format!("{i}"), traced) {
+            rep.notes.push(format!("stopped at traced case {i}: a logged run hung or panicked"));
+            return rep;
+        }
+    }
     let (seed, workdir) = (ctx.seed, ctx.workdir.clone());
     crate::props::par_cases(ctx, &mut rep, n, 5, |_m, r, i| {
         let case = gen_case(seed, i);
